@@ -131,6 +131,7 @@ type State struct {
 	ext                *Term
 	emitN              int
 	callN              int
+	pages              []*Term // prefixes of the stores handed to query.Paginate
 	notes              []string
 	loopSeen           map[*ssa.BasicBlock]int
 	depth              int
@@ -159,6 +160,7 @@ func (s *State) clone() *State {
 	n.events = append([]Rec(nil), s.events...)
 	n.calls = append([]Rec(nil), s.calls...)
 	n.notes = append([]string(nil), s.notes...)
+	n.pages = append([]*Term(nil), s.pages...)
 	n.loopSeen = map[*ssa.BasicBlock]int{}
 	for k, v := range s.loopSeen {
 		n.loopSeen[k] = v
